@@ -68,9 +68,14 @@ def rule_flush(ctx):
         raise AnalysisError("_process_caller: loop over the collocated matches not found")
     lp = loop[0]
     saves = [c for c in calls_in(f.node, "_save_and_return")]
+    if not saves:
+        raise AnalysisError("_process_caller: no call of _save_and_return found")
     bad = []
     for c in saves:
         st = enclosing_stmt(c)
+        # put directly: results.put([..., self._save_and_return(...)])
+        if isinstance(st, ast.Expr) and isinstance(st.value, ast.Call) and norm(st.value.func) == "results.put" and any(x is c for x in ast.walk(st.value)):
+            continue
         par = parent(st)
         body = getattr(par, "body", [])
         nxt = body[body.index(st) + 1] if st in body and body.index(st) + 1 < len(body) else None
@@ -82,20 +87,29 @@ def rule_flush(ctx):
            "every saved/returned bundle is put on the result queue", node=saves[0] if saves else f.node, func=f)
     # unbundled arm
     ub = [st for st in lp.body if isinstance(st, ast.If) and norm(st.test) == "bundle is None"]
-    oku = bool(ub) and any(calls_in(s, "_save_and_return") for s in ub[0].body) and isinstance(ub[0].body[-1], ast.Continue) \
-        and norm(calls_in(ub[0], "_save_and_return")[0].args[0]) == norm(lp.target.elts[0])
+    if not ub:
+        raise AnalysisError("_process_caller: the arm for `bundle is None` was not found")
+    item = lp.target
+    while isinstance(item, ast.Tuple) and not all(isinstance(e, ast.Name) for e in item.elts):
+        item = [e for e in item.elts if isinstance(e, ast.Tuple)][0]
+    first_name = norm(item.elts[0]) if isinstance(item, ast.Tuple) else norm(item)
+    oku = any(calls_in(s, "_save_and_return") for s in ub[0].body) and isinstance(ub[0].body[-1], ast.Continue) \
+        and norm(calls_in(ub[0], "_save_and_return")[0].args[0]) == first_name
     ctx.ob("Collocator._process_caller.unbundled", oku, "%s" % (norm(ub[0])[:120] if ub else None), "without bundling each non-None result is saved and put at once", node=ub[0] if ub else lp, func=f)
     # flush + reset before append
-    fl = [st for st in lp.body if isinstance(st, ast.If) and norm(st.test) == "save_cache"]
+    fl = [st for st in lp.body if isinstance(st, ast.If) and calls_in(flow.resolve(st.test, at=st, depth=2), "_should_save_cache")]
+    if not fl:
+        raise AnalysisError("_process_caller: the flush decision (_should_save_cache) was not found in the loop")
     okf = False
     fact = None
     if fl:
         b = [norm(s) for s in fl[0].body]
         fact = b
         app = [s for s in lp.body if isinstance(s, ast.Expr) and norm(s.value).startswith("cached_data.append(")]
-        okf = any(x.startswith("result = self._save_and_return(cached_data, cached_attributes") for x in b) and "cached_data = []" in b and "cached_attributes = {}" in b \
-            and b.index("cached_data = []") > [i for i, x in enumerate(b) if "_save_and_return" in x][0] \
-            and bool(app) and lp.body.index(app[0]) > lp.body.index(fl[0]) and norm(app[0].value) == "cached_data.append(%s)" % norm(lp.target.elts[0])
+        sv_idx = [i for i, s_ in enumerate(fl[0].body) if any([norm(a_) for a_ in c_.args[:2]] == ["cached_data", "cached_attributes"] for c_ in calls_in(s_, "_save_and_return"))]
+        okf = bool(sv_idx) and "cached_data = []" in b and "cached_attributes = {}" in b \
+            and b.index("cached_data = []") > sv_idx[0] and b.index("cached_attributes = {}") > sv_idx[0] \
+            and bool(app) and lp.body.index(app[0]) > lp.body.index(fl[0]) and norm(app[0].value) == "cached_data.append(%s)" % first_name
     ctx.ob("Collocator._process_caller.flush_reset", okf, "%s" % fact, "flush(cached) ; cached_data = [] ; cached_attributes = {} ; then append the new element (no double flush, no loss)",
            node=fl[0] if fl else lp, func=f)
     # tail
